@@ -732,13 +732,17 @@ val normal : char list -> bool
 
 val dz : z -> char list
 
-val didx : pidx -> char list
+type layout = char list -> pidx -> (char list * char list) * bool
 
-val dtext : ntok -> char list
+val canon : layout
 
-val dflat : ntok list -> char list
+val ibody : bool -> pidx -> char list
 
-val denorm_text : neq -> char list
+val dtext : layout -> ntok -> char list
+
+val dflat : layout -> ntok list -> char list
+
+val denorm_text : layout -> neq -> char list
 
 val tok_term : ptype -> ntok -> term option
 
@@ -750,10 +754,14 @@ val neq_code : neq -> char list
 
 val ttemplate : ntok list -> char list
 
-val dtok_ok : bool -> ntok -> char list -> bool
+val dtok_ok : layout -> bool -> ntok -> char list -> bool
 
-val dwf_k : bool -> ntok list -> char list -> bool
+val dwf_k : layout -> bool -> ntok list -> char list -> bool
 
 val text_char_ok : char -> bool
 
-val dq_ok : neq -> bool
+val dq_ok : layout -> neq -> bool
+
+val dq_ok_canon : neq -> bool
+
+val denorm_canon : neq -> char list
